@@ -57,6 +57,8 @@ void vs_end(void);                       /* main thread: harness body finished *
 void vs_set_hash_cb(vs_hash_cb_t cb);
 void vs_hash_mix(uint64_t *h, uint64_t v);
 void vs_yield(int pc);
+/* fault: the k-th (1-based) thread creation fails with EAGAIN; while set, every successful creation is a scheduling point */
+extern int vs_fail_create_at;
 void vs_fail(int outcome, const char *fmt, ...) __attribute__((noreturn, format(printf, 2, 3)));
 void vs_result(const char *fmt, ...) __attribute__((format(printf, 1, 2)));
 int vs_self(void);
